@@ -12,5 +12,6 @@ CONSTANTS
   EUSuffixed = {}
   GenClasses = {"scalar", "array", "bitfield", "nested", "anon", "alignas", "flex"}
   GenPacked = TRUE
+  McSel = "full"
   CheckSim = FALSE
 CHECK_DEADLOCK FALSE
